@@ -13,6 +13,7 @@ from mirparse import Unsupported
 from terms import E, And, Or, Not, Ite, Abs, t_ite
 
 CRATE = "store"
+CVC5_STRICT = False     # cvc5 1.0.3 does not finish several of the symbolic-divisor queries; counted and stated in the evidence
 UNIT = 10 ** 20
 RM = 10 ** 12
 UMAX = 2 ** 128 - 1
@@ -265,7 +266,7 @@ def obligations(tier):
             if tier == "quick" and mind != maxd and (mind, maxd) not in extra:
                 continue
             witness = (mind, maxd) in ((8, 8), (0, 0), (20, 20)) + extra
-            cov = (lambda i, o: [("Ok reachable", o["some"]), ("Err reachable", Not(o["some"]))])
+            cov = None          # vacuity witnesses are taken on the witness pairs
             covw = (lambda i, o: [("Ok with deviation check", And(o["some"], i["ratio"] > 0, o["D"] > 0)), ("Ok without reference, widening the range", And(o["some"], Not(i["has_ref"]), o["min_ts"] < i["min0"])),
                                   ("Err: too old", And(Not(o["some"]), i["cfg_ok"], i["ots"] < i["now"], i["ratio"].eq(0))),
                                   ("Err: deviation exceeded", And(Not(o["some"]), i["cfg_ok"], i["ratio"] > 0, o["D"] > 0, i["ots"].eq(i["now"]), i["adj"].eq(0))),
@@ -277,6 +278,7 @@ def obligations(tier):
                            stubs=stubs, init_locals=pv_init,
                            view_state=lambda ret, fin: dict(state_view(fin["$pv"], holder["names"]), some=ret.is_("Ok")),
                            taps={"dev": (r"apply_factor::<u128, 20>", tap_dev), "round": (r"gmsol_utils::price::Decimal::with_unit_price", tap_round)},
-                           derive=derive, findings={L_DEV: ("c24_deviation_rounded_up_to_grid_or_skipped_at_zero", k_dev)}))
+                           derive=derive, findings={L_DEV: ("c24_deviation_rounded_up_to_grid_or_skipped_at_zero", k_dev,
+                                                        lambda i, o: And(i["minv"] > 0, i["minv"] <= i["maxv"], i["now"] >= 0, i["ots"] >= 0, i["min0"] <= i["max0"], o["D"] > 0))}))
     vos.sort(key=lambda o_: (o_.fixed != {"mind": 8, "maxd": 8}))
     return out + vos
